@@ -106,3 +106,19 @@ CHECKS['C10'] = dict(
     text=('Every history to depth 6 (thorough 7, 2 sessions) of session steps, the three disconnect modes, requests cut immediately after they were sent, and Gets abandoned after 0..2 (3) responses in two modes, from the empty server and from a server holding a chain of entries. '
           'After every fault: installed entries and election id identical, the session removed, and a fresh session must negotiate, win the election, program an entry, Get it and Flush — run as a thread; "blocked forever" is the scheduler\'s verdict, not a timeout.'),
     note='Stream contract of wire/ (DESIGN §2.4), not HTTP/2; faults inside a request are explored under the default schedule only. distinct_nontrivial counts histories containing at least one fault letter.')
+ENGINES[-2]['serves_properties'] += ['C13', 'C14']
+CHECKS['C13'] = dict(
+    category='model_checking', engine='schedule-dfs', design_ref='DESIGN.md §3 C13',
+    technique='stateless schedule DFS (deviation bound 1, thorough 2) of the real client (sender, receiver, waiter threads) x exhaustive enumeration of the scripted server\'s reply plans, ledger oracle',
+    text=('The real client.Client runs under the controlled runtime against a scripted server behind the in-memory transport. For 1-2 (thorough 3) operations in RIB-ack and FIB-ack mode the server\'s reply plan ranges over every per-operation outcome '
+          '(programmed / FAILED / FIB_FAILED), every interleaving respecting RIB-before-FIB, every batching into responses, plus unknown-id, duplicate-terminal and withheld-terminal variants; operations are queued before or after StartSending; '
+          'every schedule within the deviation bound. Oracle: AwaitConverged succeeds only after the server sent a terminal result for every operation, with nothing pending, no recorded error, exactly one terminal result per operation carrying its type and key; '
+          'protocol violations and withheld results never yield success; the waiter never livelocks against a well-behaved server.'),
+    note='Virtual time (the 100 ms poll is a scheduling point); <= 3 operations; an unknown id carrying RIB_PROGRAMMED in FIB-ack mode is deliberately tolerated by the client (late RIB ack) and is not used as a violation.')
+CHECKS['C14'] = dict(
+    category='fault_enumeration', engine='schedule-dfs', design_ref='DESIGN.md §3 C14',
+    technique='fault enumeration (stream error at every message index, send and receive side, 2-3 status codes, followed by Close or Reset+Connect) x stateless schedule DFS of the real client; exact goroutine census from the scheduler',
+    text=('For every fault case the application thread queues a burst of 7 requests (more than the modify buffer) while the stream fails; every schedule within 1 (thorough 2) deviations. Oracle: all Q calls return, AwaitConverged returns the error '
+          '(deadlock / livelock of any client thread is the scheduler\'s verdict), Done is signalled, Close / Reset return, no sender or receiver thread is left; after Reset + Connect the client holds no pending / results / errors, the new stream carries exactly '
+          'params, election id and the new operation, and the new exchange converges.'),
+    note='Faults at the stream API (wire/), not inside HTTP/2. distinct_nontrivial = distinct (fault, outcome) observations.')
